@@ -366,12 +366,20 @@ func run(tapeJSON json.RawMessage, res *core.Result) {
 	// expectation
 	exp := "none"
 	var pnames, rejNames []string
+	dropped := false
+	for _, p := range tp.Perturb {
+		dropped = dropped || p.Kind == "caddr-dropped"
+	}
 	for _, p := range tp.Perturb {
 		pnames = append(pnames, fmt.Sprintf("%s(%d)", p.Kind, p.Arg))
 		if delivered == 0 {
 			continue
 		}
-		switch expect(tp.Exchange, tp.Etype, p, addrsRequested) {
+		e := expect(tp.Exchange, tp.Etype, p, addrsRequested)
+		if p.Kind == "caddr-added" && dropped {
+			e = "either" // two changes to one field: the list that was extended is dropped again
+		}
+		switch e {
 		case "reject":
 			exp = "reject"
 			rejNames = append(rejNames, fmt.Sprintf("%s(%d)", p.Kind, p.Arg))
